@@ -154,6 +154,13 @@ func main() {
 			}
 		}
 		spec := msdrive.Spec{Persistent: ps}
+		// a software upgrade: after the commit of block mountAt the store object is replaced by a new one that mounts
+		// an additional (so far non-existent) IAVL substore, whose own versions then lag behind the multistore's
+		mountAt := -1
+		if r.Chance(1, 2) {
+			mountAt = r.Intn(nb - 1)
+		}
+		const upg = "upg"
 		t.Line("hist", false, "hist %d %s", h, strings.Join(ps, ","))
 		func() {
 			defer func() {
@@ -187,6 +194,13 @@ func main() {
 			}
 			var snaps []oracle
 			for bi, b := range blocks {
+				if mountAt >= 0 && bi > mountAt { // the upgraded software also writes to its new store
+					for j := r.Intn(4); j > 0; j-- {
+						w := write{store: upg, k: msdrive.Key(r, space), v: msdrive.Val(r)}
+						w.del = r.Chance(1, 4)
+						b = append(b, w)
+					}
+				}
 				applyRoute(ms, b, (bi+len(b))%3)
 				for _, w := range b {
 					if w.del {
@@ -202,7 +216,12 @@ func main() {
 				snaps = append(snaps, o.clone())
 				t.Line("commit", true, "commit %d => %s %s", bi, msdrive.CID(id), renderEvents(evs))
 				storeStates(t, "state", fmt.Sprint(id.Version), ms, o)
-				if r.Chance(1, 3) {
+				if bi == mountAt {
+					spec = msdrive.Spec{Persistent: append(append([]string{}, ps...), upg)}
+					o[upg] = map[string][]byte{}
+					t.Line("mount", true, "mount %s => ok", upg)
+				}
+				if bi == mountAt || r.Chance(1, 3) {
 					// a NEW store object on the same DB (goleveldb: directory closed and reopened)
 					if *backend == "goleveldb" {
 						inner.Close()
@@ -238,43 +257,49 @@ func main() {
 					storeStates(t, "rstate", fmt.Sprint(v), ms2, nil)
 				}()
 				func() {
+					lazy := "lazy"
+					if mountAt >= 0 {
+						lazy = "lazym" // LoadLazyVersion with a later-mounted substore: compared with the model only
+					}
 					defer func() {
 						if e := recover(); e != nil {
-							t.Line("lazy", true, "lazy %d => PANIC %s", v, errStr(e))
+							t.Line("lazy", true, "%s %d => PANIC %s", lazy, v, errStr(e))
 						}
 					}()
 					lz, err := ms.Store.LoadLazyVersion(v)
 					if err != nil {
-						t.Line("lazy", true, "lazy %d => ERR %s", v, errStr(err))
+						t.Line("lazy", true, "%s %d => ERR %s", lazy, v, errStr(err))
 						return
 					}
 					rs := (*lz).(*rootmulti.Store)
 					var parts []string
-					for _, p := range ps {
+					for _, p := range spec.Persistent {
 						parts = append(parts, p+"="+msdrive.DumpKV(rs.GetKVStore(ms.Keys[p])))
 					}
-					t.Line("lazy", true, "lazy %d => %s", v, strings.Join(parts, " "))
+					t.Line("lazy", true, "%s %d => %s", lazy, v, strings.Join(parts, " "))
 				}()
 			}
 			inner.Close()
 		}()
-		// never-persisted replica: same history, separate MemDB, never reopened
-		func() {
-			defer func() {
-				if e := recover(); e != nil {
-					t.Line("panic", false, "panic replica => %s", errStr(e))
+		// never-persisted replica: same history, separate MemDB, never reopened (impossible when a substore is mounted midway)
+		if mountAt < 0 {
+			func() {
+				defer func() {
+					if e := recover(); e != nil {
+						t.Line("panic", false, "panic replica => %s", errStr(e))
+					}
+				}()
+				ms, err := msdrive.Open(dbm.NewMemDB(), spec, int64(200+r.Intn(1000)))
+				if err != nil {
+					panic(err)
+				}
+				for bi, b := range blocks {
+					applyRoute(ms, b, (bi+len(b))%3)
+					id := ms.Store.Commit()
+					t.Line("replica", true, "replica %d => %s", bi, msdrive.CID(id))
 				}
 			}()
-			ms, err := msdrive.Open(dbm.NewMemDB(), spec, int64(200+r.Intn(1000)))
-			if err != nil {
-				panic(err)
-			}
-			for bi, b := range blocks {
-				applyRoute(ms, b, (bi+len(b))%3)
-				id := ms.Store.Commit()
-				t.Line("replica", true, "replica %d => %s", bi, msdrive.CID(id))
-			}
-		}()
+		}
 	}
 	if *dir != "" {
 		_ = filepath.Walk // keep import
